@@ -70,6 +70,11 @@ fn gen_c21(rng: &mut Rng, regime: &str, tier: Tier) -> Value {
             starve = rng.urange(1, 8); // a window with no publish requests at all
         } else if rng.chance(p_publish) {
             let mut p = json!({"op": "publish", "n": rng.urange(1, 3), "ack": *rng.pick(&["all", "all", "all", "none"])});
+            if regime == "c21" && rng.chance(0.12) {
+                // requests with a short timeout hint: several of them expire in the same server pass
+                p["hint"] = json!(*rng.pick(&[150u64, 300, 1000]));
+                p["n"] = json!(rng.urange(2, 3));
+            }
             if regime == "c40" {
                 p["ack"] = json!(*rng.pick(&["all", "all", "none", "newest", "newest", "dup", "unknown", "badsub"]));
             }
@@ -124,7 +129,12 @@ fn gen_c24(rng: &mut Rng, tier: Tier) -> Value {
             steps.push(json!({"op": "write", "var": i}));
         }
         if rng.chance(p_modify) {
-            steps.push(json!({"op": "modify_item", "sub": 0, "item": rng.below(ni as u64), "q": rng.urange(1, 12), "discard_oldest": rng.chance(0.5)}));
+            let mut m = json!({"op": "modify_item", "sub": 0, "item": rng.below(ni as u64), "q": rng.urange(1, 12), "discard_oldest": rng.chance(0.5)});
+            if rng.chance(0.2) {
+                // a modification the server has to refuse: nothing about the queue may change
+                m["bad_filter"] = json!(*rng.pick(&["percent", "negative", "unknown"]));
+            }
+            steps.push(m);
         }
         steps.push(json!({"op": "tick", "n": 1}));
     }
@@ -138,7 +148,7 @@ fn gen_c25(rng: &mut Rng, tier: Tier) -> Value {
     for i in 0..ni {
         let dtype = *rng.pick(&[0u64, 0, 1, 1, 2]);
         let filter = json!({"trigger": rng.below(3), "deadband_type": dtype, "deadband": *rng.pick(&[0.0, 0.5, 1.0, 2.0, 3.0, 10.0])});
-        steps.push(json!({"op": "create_item", "sub": 0, "var": i, "q": 500, "sampling": 100.0, "filter": filter}));
+        steps.push(json!({"op": "create_item", "sub": 0, "var": i, "q": 500, "sampling": 100.0, "filter": filter, "ttr": *rng.pick(&["both", "both", "neither", "source", "server"])}));
     }
     steps.push(json!({"op": "tick", "n": 2}));
     let rounds = if tier == Tier::Thorough { rng.urange(15, 60) } else { rng.urange(10, 30) };
@@ -149,6 +159,12 @@ fn gen_c25(rng: &mut Rng, tier: Tier) -> Value {
                 let status = *rng.pick(&[0u64, 0, 0, 0x4000_0000, 0x8000_0000]);
                 steps.push(json!({"op": "write", "var": i, "via": "direct", "delta": delta, "status": status}));
             }
+        }
+        if rng.chance(0.06) {
+            steps.push(json!({"op": "resend_data", "sub": 0}));
+        }
+        if rng.chance(0.04) {
+            steps.push(json!({"op": "modify_item", "sub": 0, "item": rng.below(ni as u64), "q": 500, "bad_filter": *rng.pick(&["percent", "negative", "unknown"])}));
         }
         steps.push(json!({"op": "tick", "n": 1}));
     }
@@ -282,7 +298,15 @@ impl Scenario for Subs {
                     let lt = rng.urange(3 * ka as usize, 3 * ka as usize + 20) as u64;
                     let pi = *rng.pick(&[100.0, 200.0, 300.0]);
                     let mult = (pi / 100.0) as u64;
-                    if rng.chance(0.5) {
+                    if rng.chance(0.25) {
+                        // requests for a while (the subscription reaches its keep-alive state), then never again
+                        let warm = mult * (2 * ka + 3);
+                        json!({"regime": "c22-never", "vars": 1, "tseed": rng.next_u64() >> 12,
+                            "steps": [{"op": "create_sub", "pi": pi, "ka": ka, "lt": lt, "prio": 0, "enabled": rng.chance(0.5)},
+                                      {"op": "publish", "n": 2, "ack": "all"}, {"op": "tick", "n": warm},
+                                      {"op": "tick", "n": mult * (lt + 5 + rng.below(4))},
+                                      {"op": "publish", "n": 1, "ack": "none"}, {"op": "tick", "n": 2}, {"op": "check_expiry", "sub": 0, "expect": "expired"}]})
+                    } else if rng.chance(0.5) {
                         json!({"regime": "c22-always", "vars": 1, "auto_publish": rng.urange(1, 3), "tseed": rng.next_u64() >> 12,
                             "steps": [{"op": "create_sub", "pi": pi, "ka": ka, "lt": lt, "prio": 0, "enabled": rng.chance(0.5)}, {"op": "tick", "n": mult * (3 * (ka + 1) + 3).max(lt + 5)}]})
                     } else {
